@@ -195,6 +195,9 @@ func (r *Run) doValueOp(sc *plan.Script, op *plan.Op, rec *plan.Rec) {
 			return
 		}
 		rec.Err = Classify(dm.Put(ctx, key, v))
+	case "delv":
+		_, err := dm.Delete(ctx, key)
+		rec.Err = Classify(err)
 	case "getv":
 		g, err := dm.Get(ctx, key)
 		rec.Err = Classify(err)
